@@ -220,6 +220,24 @@ def run(ck):
             ck.violation(sig, 'svt_av1_enc_set_parameter does not return (outcome %s) for %s' % (o, d), dict(config=d, outcome=o), True)
     from checks import c12_doc
     c12_doc.compare_with_guide(ck, fields, base, hbin, run_direct)
+    # the documented domain in the CALLER's terms where the copy stage derives a cell instead of copying it: the frame rate. The theorem
+    # speaks about the effective configuration (what copy_api_from_app leaves behind); which caller fields feed the validated cell is
+    # checked here on the public API: numerator and denominator, when both are set, replace frame_rate (EbSvtAv1Enc.h), 1..240 fps
+    ix = {n: i for i, (_, n) in enumerate([(f[0], f[1]) for f in fields])}
+    if all(k_ in ix for k_ in ('frame_rate', 'frame_rate_numerator', 'frame_rate_denominator', 'source_width', 'source_height')):
+        trip = [((fr, nu, de), ok_) for (fr, nu, de, ok_) in [
+            (30, 0, 0, True), (60 << 16, 0, 0, True), (240 << 16, 0, 0, True), (0, 0, 0, False), (241 << 16, 0, 0, False),
+            (30 << 16, 30, 1, True), (0, 30, 1, True), (0xFFFFFFFF, 30000, 1001, True), (500 << 16, 60, 1, True), (25 << 16, 240, 1, True), (0, 24000, 1001, True),
+            (30 << 16, 241, 1, False), (30 << 16, 1000, 1, False), (60, 480, 1, False), (25 << 16, 482, 2, False), (30 << 16, 65535, 2, False)]]
+        tcases = [{ix['source_width']: 640, ix['source_height']: 480, ix['frame_rate']: t[0], ix['frame_rate_numerator']: t[1], ix['frame_rate_denominator']: t[2]} for t, _ in trip]
+        tout = run_impl(hbin, tcases)
+        wrong = [(t, ok_, o) for (t, ok_), o in zip(trip, tout) if (o == 'rc 0') != ok_]
+        ck.evals += len(trip)
+        ck.obligation('caller-level frame-rate domain: numerator / denominator, when both set, decide acceptance (1..240 fps) whatever frame_rate holds (%d triples on the public API)' % len(trip), not wrong,
+                      '; '.join('frame_rate=%d num=%d den=%d: documented %s, returned %s' % (t[0], t[1], t[2], 'valid' if ok_ else 'invalid', o) for t, ok_, o in wrong[:3]))
+        for t, ok_, o in wrong[:2]:
+            ck.violation(('rejects_documented' if ok_ else 'accepts_undocumented') + ':frame_rate_triple', 'svt_av1_enc_set_parameter %s frame_rate=%d numerator=%d denominator=%d (640x480, all else default), which the documented domain %s: numerator / denominator give %.3f fps and replace frame_rate' % (
+                'rejects' if ok_ else 'accepts', t[0], t[1], t[2], 'admits' if ok_ else 'excludes', t[1] / t[2] if t[2] else 0.0), dict(config=dict(source_width=640, source_height=480, frame_rate=t[0], frame_rate_numerator=t[1], frame_rate_denominator=t[2]), returned=o), True)
     # the property against the golden documented domain, on the real code, for every boundary case
     ngold = 0
     if okb and len(model) == len(cases):
